@@ -4,6 +4,7 @@ def b_State_write_goal_time_exact_or_interval : CR.SrcW.Builder where
   kind := .fill
   tag := ""
   xsd := "integerIntervalGreaterZero"
+  path := []
   parent := ""
   attrs := []
   gattrs := []
